@@ -186,6 +186,95 @@ class ListingBase(Machine):
         _TRUNC[key] = res
         return res
 
+    def choose_rewrites(self, base, lst, rng, k):
+        """Rewrites up to k printed numbers of image `base` by other numbers of the same printed
+        form.  Returns (new image, cells) with cells = (table, index, row, column | ('short',
+        printed non-zero numbers), new value, old text, new text, kind)."""
+        ctx = self.ctx
+        n = lst.num_fulltimes
+        cells = []
+        data = bytearray(base)
+        used_lines = set()
+        varying = self.varying_rows(base, lst)
+        for _ in range(k):
+            i = rng.randrange(n)
+            r = rng.random()
+            pick_var = None
+            if varying and r < 0.35:
+                # a row that prints more numbers at one result set than at another: rewrite one
+                # of the numbers that are blank elsewhere, where the row is longest
+                keys = sorted(varying)
+                tr = keys[rng.randrange(len(keys))]
+                lens = varying[tr]
+                i = max(sorted(lens), key=lambda q: lens[q])
+                pick_var = (tr, min(lens.values()))
+            if i:
+                self.guarded(lambda: setattr(lst, 'index', i), 'index = %d' % i)
+            else:
+                self.guarded(lst.first, 'first()')
+            located = [L for L in locate_rows(bytes(base), lst, i)
+                       if L.offset not in used_lines and
+                       (L.full or lst._table[L.table].column_name[0] != 'I')]
+            # rows with blank cells ("short" rows, mostly generation tables) are rewritten too
+            short_rows = [L for L in located if not L.full]
+            if pick_var is not None:
+                alt = [L for L in located if (L.table, L.row) == pick_var[0]]
+                if alt:
+                    located = alt
+                    ctx.probes['rewrite_row_of_varying_length'] += 1
+                else:
+                    pick_var = None
+            elif short_rows and r < 0.55:
+                located = short_rows
+            if not located:
+                continue
+            L = located[rng.randrange(len(located))]
+            t = lst._table[L.table]
+            j = rng.randrange(len(L.tail))
+            if pick_var is not None and len(L.tail) > pick_var[1]:
+                j = pick_var[1] + rng.randrange(len(L.tail) - pick_var[1])
+            col, tok = L.tail[j]
+            prev_end = (L.tail[j - 1][0] + len(L.tail[j - 1][1])) if j else \
+                len(L.line[:col].rstrip())
+            vs = variants(tok, rng, col - prev_end)
+            if pick_var is not None:
+                vs = [v for v in vs if F.fread(v[1]) != 0.0] or vs
+            if not vs:
+                continue
+            kd, new, sh = vs[rng.randrange(len(vs))]
+            a = L.offset + col - sh
+            if bytes(data[a:a + len(new)]).decode('latin-1') != (' ' * sh + tok):
+                raise HarnessError('rewrite target mismatch')
+            data[a:a + len(new)] = new.encode('latin-1')
+            used_lines.add(L.offset)
+            cj = j + (1 if t.column_name[0] == 'I' else 0)
+            if not L.full:
+                # which column the j-th printed number belongs to is not known independently:
+                # the oracle for this row is "its non-zero cells are the printed non-zero numbers"
+                printed = [F.fread(new) if k_ == j else F.fread(tk) for k_, (_, tk) in
+                           enumerate(L.tail)]
+                cj = ('short', tuple(v for v in printed if v != 0.0))
+            cells.append((L.table, i, L.row, cj, F.fread(new), tok, new, kd))
+            ctx.probes['rewrite_' + kd] += 1
+        return bytes(data), cells
+
+    def varying_rows(self, base, lst):
+        """{(table, row): {index: count of printed numbers}} for rows whose count of printed
+        numbers differs between result sets (cells blank at one time, printed at another)."""
+        key = ('varying-rows', sha(base))
+        if key not in _FRESH:
+            cnt = {}
+            for i in range(lst.num_fulltimes):
+                if i:
+                    lst.index = i
+                else:
+                    lst.first()
+                for L in locate_rows(bytes(base), lst, i):
+                    if lst._table[L.table].column_name[0] != 'I':
+                        cnt.setdefault((L.table, L.row), {})[i] = len(L.tail)
+            _FRESH[key] = dict((k, v) for k, v in cnt.items() if len(set(v.values())) > 1)
+        return _FRESH[key]
+
     def compare_snap(self, want, got, what, check='N1'):
         if (want[0], want[1], want[2]) != (got[0], got[1], got[2]):
             raise Violation(check + '.pos', '%s: (index, time, step) = %r, a fresh reader positioned '
@@ -364,8 +453,18 @@ class NavMachine(ListingBase):
                 ctx.stats['skip_HISTORY'] += 1
                 return
             arg = items[0] if len(items) == 1 and ch[1] % 2 else items
+            invalid = ch[0] % 5 == 0
+            if invalid:
+                # a selection with no valid item: documented to return None
+                bad = [('e', 'zz9z9', items[0][2]), ('x', items[0][1], items[0][2]),
+                       ('e7', items[0][1], items[0][2])][ch[0] // 5 % 3]
+                arg = bad if ch[1] % 2 else [bad]
+                ctx.probes['history_invalid_selection'] += 1
             what = 'history(%r)' % (arg,)
-            self.guarded(lambda: lst.history(arg), what)
+            res = self.guarded(lambda: lst.history(arg), what)
+            if invalid and res is not None:
+                raise Violation('N1.hist', '%s returned %r for a selection with no valid item'
+                                % (what, type(res)))
             expect = before
         ctx.stats['op_' + kind] += 1
         ctx.state_changes += 1
@@ -404,10 +503,18 @@ class NavMachine(ListingBase):
                 self.lst.close()
             except Exception:
                 pass
+        if ch[2] % 4 == 1 and data is image(rel):
+            # a value-perturbed copy: some printed numbers replaced by others of the same form
+            tmp = self.open_image(rel, data, ())
+            data, cells = self.choose_rewrites(data, tmp, random.Random(H('navrw', ch[1])),
+                                               1 + ch[1] % 6)
+            tmp.close()
+            if cells:
+                ctx.probes['rewritten_image'] += 1
         self.rel, self.data, self.skip = rel, data, ()
         self.lst = self.open_image(rel, data, ())
         ctx.digest.add('OPEN', rel, sha(data))
-        ctx.fp.append(('OPEN', rel, len(data) != len(image(rel))))
+        ctx.fp.append(('OPEN', rel, len(data) != len(image(rel)), data is image(rel)))
 
     _NSETS = {}
 
@@ -829,48 +936,7 @@ class TableMachine(ListingBase):
         rng = random.Random(H('rewrite', ch[1]))
         n = self.nfull()
         lst = self.reader(self.data)
-        cells = []
-        data = bytearray(self.data)
-        used_lines = set()
-        for _ in range(ch[2]):
-            i = rng.randrange(n)
-            if i:
-                self.guarded(lambda: setattr(lst, 'index', i), 'index = %d' % i)
-            else:
-                self.guarded(lst.first, 'first()')
-            located = [L for L in locate_rows(bytes(self.data), lst, i)
-                       if L.offset not in used_lines and
-                       (L.full or lst._table[L.table].column_name[0] != 'I')]
-            # rows with blank cells ("short" rows, mostly generation tables) are rewritten too
-            short_rows = [L for L in located if not L.full]
-            if short_rows and rng.random() < 0.3:
-                located = short_rows
-            if not located:
-                continue
-            L = located[rng.randrange(len(located))]
-            t = lst._table[L.table]
-            j = rng.randrange(len(L.tail))
-            col, tok = L.tail[j]
-            prev_end = (L.tail[j - 1][0] + len(L.tail[j - 1][1])) if j else \
-                len(L.line[:col].rstrip())
-            vs = variants(tok, rng, col - prev_end)
-            if not vs:
-                continue
-            kd, new, sh = vs[rng.randrange(len(vs))]
-            a = L.offset + col - sh
-            if bytes(data[a:a + len(new)]).decode('latin-1') != (' ' * sh + tok):
-                raise HarnessError('rewrite target mismatch')
-            data[a:a + len(new)] = new.encode('latin-1')
-            used_lines.add(L.offset)
-            cj = j + (1 if t.column_name[0] == 'I' else 0)
-            if not L.full:
-                # which column the j-th printed number belongs to is not known independently:
-                # the oracle for this row is "its non-zero cells are the printed non-zero numbers"
-                printed = [F.fread(new) if k == j else F.fread(tk) for k, (_, tk) in
-                           enumerate(L.tail)]
-                cj = ('short', tuple(v for v in printed if v != 0.0))
-            cells.append((L.table, i, L.row, cj, F.fread(new), tok, new, kd))
-            ctx.probes['rewrite_' + kd] += 1
+        data, cells = self.choose_rewrites(self.data, lst, rng, ch[2])
         lst.close()
         if not cells:
             return False
@@ -881,9 +947,13 @@ class TableMachine(ListingBase):
         if lst2.num_fulltimes != n:
             raise Violation('P2', '%s: after rewriting %d numbers the reader sees %d result sets '
                             'instead of %d' % (self.rel, len(cells), lst2.num_fulltimes, n))
-        for i in range(n):
-            if i:
-                self.guarded(lambda: setattr(lst2, 'index', i), 'index = %d' % i)
+        # every result set is visited, in a seeded order with revisits (what a table shows must not
+        # depend on where the reader was before)
+        order = list(range(n))
+        rng.shuffle(order)
+        order = order + [order[rng.randrange(n)] for _ in range(min(n, 3))]
+        for i in order:
+            self.guarded(lambda: setattr(lst2, 'index', i), 'index = %d' % i)
             got = self.snap(lst2)
             want = self.fresh_at(self.rel, old_data, (), i)
             if list(got[3]) != list(want[3]):
